@@ -160,7 +160,12 @@ func analyse(body []byte, needles []string, payload string) *htmlView {
 					n = a.Namespace + ":" + n
 				}
 				if urlAttrs[n] {
-					c, _ := urlClass(a.Val)
+					c, sch := urlClass(a.Val)
+					if sch != "" && containsAny(a.Val, needles) {
+						// the URL itself is the request-controlled value of this position (the benign render carries the
+						// marker at the same place): its host is data, its scheme class is structure
+						c = sch + "://*"
+					}
 					n += "=" + c
 				}
 				names = append(names, n)
